@@ -36,6 +36,9 @@ def classes():
         def _get_render_size_(self):
             return Size(self.w, self.h)
 
+        def _handle_interrupted_draw_(self, render_data, render_args, output):
+            self.log.append(("interrupted_hook", render_data.finalized))
+
         def _get_render_data_(self, *, iteration):
             data = super()._get_render_data_(iteration=iteration)
             self.datas.append([data, 0])
